@@ -55,6 +55,11 @@ def gen_objdef(rng, feat, placeholders=None):
         return {'class': 'tc_verif.lab.runtime.LabChainObj', 'kwargs': {'a': rng.choice([1, 'z', [1, 2]])}}
     if feat.get('set_objects') and rng.random() < 0.4:
         return {'class': 'tc_verif.lab.runtime.LabObjSet', 'kwargs': {'tags': rng.sample(['alpha', 'beta', 'gamma', 'delta', 'eps', 'zeta', 'eta'], rng.randint(2, 6))}}
+    if rng.random() < 0.1:
+        kw = {'a': rng.choice([1, 'z', [1, 2]])}
+        for k_ in rng.sample(['upper', 'lower', 'mode'], rng.randint(0, 2)):
+            kw[k_] = rng.choice([5, 50, 'x', None])
+        return {'class': 'tc_verif.lab.runtime.LabObjVar', 'kwargs': kw}
     if rng.random() < 0.12:
         return {'class': 'tc_verif.lab.runtime.LabObjDerived', 'kwargs': {'root': rng.choice(['data/x', 'r'] + (['{' + placeholders[0] + '}/corpus'] if placeholders else []))}}
     if rng.random() < 0.7:
@@ -585,6 +590,18 @@ def same_type_value(rng, v):
         return v + ['ctx']
     if isinstance(v, dict) and 'class' not in v:
         return {**v, 'ctxk': 1}
+    if isinstance(v, dict) and 'class' in v and not v['class'].endswith(('LabObjSet', 'LabChainObj')):
+        # another object: one constructor argument (never the ignored `verbose`) changed
+        kw = dict(v.get('kwargs', {}))
+        ks = [k for k in kw if k != 'verbose']
+        if not ks:
+            return v
+        opts = [k for k in ks if k != 'a'] if v['class'].endswith('LabObjVar') else []
+        k = rng.choice(opts) if opts else rng.choice(ks)
+        kw[k] = same_type_value(rng, kw[k]) if kw[k] is not None else 7
+        if v['class'].endswith(('LabObj', 'LabObjSub')) and k == 'b' and kw[k] == 3:
+            kw[k] = 4
+        return {**v, 'kwargs': kw}
     if v is None:
         return None
     return v
